@@ -34,3 +34,13 @@ Definition k_sim (sigs : list shape) (pos : bool) (p : prog) (steps : list step)
     | (Stop out c msg, idx) => [c; idx] ++ packl out ++ packl msg
     end
   else [-2].
+
+(* FORMAT parameter of the $print cell emitted for  Print(Format("x{{" "{:<spec>}", Signal(Shape(w, sg)))):
+   [-2] ValueError at construction | [0] NotImplementedError | 1 :: code points of the FORMAT string *)
+Definition k_rtl (s : list Z) (w : Z) (sg : bool) : list Z :=
+  if format_ok [Sh w sg] [CField (VSig 0) s] then
+    match rtl_format [Sh w sg] [CLit [120; 123]; CField (VSig 0) s; CLit [10]] with
+    | Some cs => 1 :: flat_map rchunk_text cs
+    | None => [0]
+    end
+  else [-2].
